@@ -133,8 +133,16 @@ end
 mutual
 partial def pairVnodes (d e : Node) : List VPair × Bool :=
   match d, e with
-  | .mk (.other "vnode") _ dk, .mk (.other "vnode") _ ek =>
+  | .mk (.other "vnode") das dk, .mk (.other "vnode") _ ek =>
     -- inside a vnode, component mismatches are judged per component
+    if das.contains "dropped-duplicate" then
+      -- a repeated non-mergeable attribute was dropped with whatever JSX its value held (outside the quantifier): the
+      -- vnodes nested in the props of the two sides do not correspond position by position and are not paired
+      let propsPairs : List VPair := []
+      let (p0, _) := pairLists (dk.take 1) (ek.take 1)
+      let (p2, _) := pairLists (dk.drop 2) (ek.drop 2)
+      ({ d := d, e := e } :: (p0 ++ propsPairs ++ p2), true)
+    else
     let (ps, _) := pairLists dk ek
     ({ d := d, e := e } :: ps, true)
   | .mk k1 a1 c1, .mk k2 a2 c2 =>
